@@ -16,14 +16,15 @@ def NewGood (R : Nat) (cyc : List Nat) (w w' : World) : Prop :=
 
 /-- Specification of the nested `redo-ifchange` commands. -/
 def ESpec (R : Nat) (E : Engine) : Prop :=
-  ∀ (cx : Ctx) (ts : List Nat) (w : World), cx.runid = R → cx.isRedo = false → cx.crash = none →
-    (∀ p, cx.parent = some p → p ∈ cx.cycles) →
-    (cx.unlocked = true → ∀ t ∈ ts, t ∉ cx.cycles) →
-    RInv R cx.cycles w →
-    RInv R cx.cycles (E.ifchangeCmd cx ts w).2 ∧
-    RStep R cx.cycles (addFor cx.parent) w (E.ifchangeCmd cx ts w).2 ∧
-    ((E.ifchangeCmd cx ts w).1 = 0 → NewGood R cx.cycles w (E.ifchangeCmd cx ts w).2 ∧
-      ∀ t ∈ ts, Settled R cx.cycles (E.ifchangeCmd cx ts w).2 t ∧ t ∉ cx.cycles) ∧
+  ∀ (cx : Ctx) (cyc : List Nat) (ts : List Nat) (w : World), cx.runid = R → cx.isRedo = false → cx.crash = none →
+    (∀ x ∈ cyc, x ∈ cx.cycles) →
+    (∀ p, cx.parent = some p → p ∈ cyc) →
+    (cx.unlocked = true → ∀ t ∈ ts, t ∉ cyc) →
+    RInv R cyc w →
+    RInv R cyc (E.ifchangeCmd cx ts w).2 ∧
+    RStep R cyc (addFor cx.parent) w (E.ifchangeCmd cx ts w).2 ∧
+    ((E.ifchangeCmd cx ts w).1 = 0 → NewGood R cyc w (E.ifchangeCmd cx ts w).2 ∧
+      ∀ t ∈ ts, Settled R cyc (E.ifchangeCmd cx ts w).2 t ∧ t ∉ cyc) ∧
     0 ≤ (E.ifchangeCmd cx ts w).1
 
 theorem RStep.goodRow {add : Nat → Dep → Prop} {w w' : World} (h : RStep R cyc add w w') {row : Dep}
@@ -39,17 +40,20 @@ def addT (t : Nat) : Nat → Dep → Prop := fun q _ => q = t
 
 /-- One nested command of the script of `t`. -/
 theorem script_call {E : Engine} (hE : ESpec R E) (cx : Ctx) (hR : cx.runid = R) (hcr : cx.crash = none)
-    (hcyc : cx.cycles = cyc) (t : Nat) (c : List Nat) (w : World) (hinv : RInv R (t :: cyc) w)
+    (hcyc : ∀ x ∈ cyc, x ∈ cx.cycles) (t : Nat) (c : List Nat) (w : World) (hinv : RInv R (t :: cyc) w)
     (hK : K R (t :: cyc) w t) :
     RInv R (t :: cyc) (E.ifchangeCmd (scriptCx cx t) c w).2 ∧
     RStep R (t :: cyc) (addT t) w (E.ifchangeCmd (scriptCx cx t) c w).2 ∧
     ((E.ifchangeCmd (scriptCx cx t) c w).1 = 0 → K R (t :: cyc) (E.ifchangeCmd (scriptCx cx t) c w).2 t) ∧
     0 ≤ (E.ifchangeCmd (scriptCx cx t) c w).1 := by
-  have hcy' : (scriptCx cx t).cycles = t :: cyc := by simp [scriptCx, hcyc]
-  have := hE (scriptCx cx t) c w hR rfl hcr
-    (by intro p hp; simp only [scriptCx] at hp; cases hp; simp [scriptCx])
-    (by intro h; cases h) (by rw [hcy']; exact hinv)
-  rw [hcy'] at this
+  have hcy' : ∀ x ∈ t :: cyc, x ∈ (scriptCx cx t).cycles := by
+    intro x hx
+    rcases List.mem_cons.1 hx with e | hx
+    · simp [scriptCx, e]
+    · exact List.mem_cons_of_mem _ (hcyc x hx)
+  have := hE (scriptCx cx t) (t :: cyc) c w hR rfl hcr hcy'
+    (by intro p hp; simp only [scriptCx] at hp; cases hp; simp)
+    (by intro h; cases h) hinv
   obtain ⟨i1, i2, i3, i4⟩ := this
   refine ⟨i1, i2.mono (fun q row h => ?_), ?_, i4⟩
   · have : some t = some q := h
@@ -60,7 +64,7 @@ theorem script_call {E : Engine} (hE : ESpec R E) (cx : Ctx) (hR : cx.runid = R)
     · exact ⟨fun _ => ⟨h.2.1, h.2.2⟩, (fun hm => by rw [h.1] at hm; cases hm)⟩
 
 theorem cmds_spec {E : Engine} (hE : ESpec R E) (cx : Ctx) (hR : cx.runid = R) (hcr : cx.crash = none)
-    (hcyc : cx.cycles = cyc) (t : Nat) :
+    (hcyc : ∀ x ∈ cyc, x ∈ cx.cycles) (t : Nat) :
     ∀ (cs : List (List Nat)) (k : Nat) (w : World), RInv R (t :: cyc) w → K R (t :: cyc) w t →
       RInv R (t :: cyc) (runScript.cmds E cx t (scriptCx cx t) cs k w).2 ∧
       RStep R (t :: cyc) (addT t) w (runScript.cmds E cx t (scriptCx cx t) cs k w).2 ∧
@@ -111,7 +115,7 @@ theorem script_addDep {w : World} {t : Nat} (hinv : RInv R (t :: cyc) w) (hK : K
   · exact (hK row h ht hdm).rowEq (RowEq.addDep _ _ _ _)
 
 theorem conds_spec {E : Engine} (hE : ESpec R E) (cx : Ctx) (hR : cx.runid = R) (hcr : cx.crash = none)
-    (hcyc : cx.cycles = cyc) (t : Nat) :
+    (hcyc : ∀ x ∈ cyc, x ∈ cx.cycles) (t : Nat) :
     ∀ (fs : List Nat) (w : World), RInv R (t :: cyc) w → K R (t :: cyc) w t → (∀ f ∈ fs, w.rules f = []) →
       RInv R (t :: cyc) (runScript.conds E t (scriptCx cx t) fs w).2 ∧
       RStep R (t :: cyc) (addT t) w (runScript.conds E t (scriptCx cx t) fs w).2 ∧
@@ -232,7 +236,7 @@ def ScriptPost (R : Nat) (cyc : List Nat) (t : Nat) (w : World) (res : Status ×
   (res.1 = 0 → K R (t :: cyc) res.2.2 t) ∧ 0 ≤ res.1
 
 theorem runScript_spec (hR : 0 < R) {E : Engine} (hE : ESpec R E) (d : Defects) (cx : Ctx) (hRid : cx.runid = R)
-    (hcr : cx.crash = none) (hcyc : cx.cycles = cyc) (t : Nat) (sc : Script) (w : World)
+    (hcr : cx.crash = none) (hcyc : ∀ x ∈ cyc, x ∈ cx.cycles) (t : Nat) (sc : Script) (w : World)
     (hsc : ∀ f, (f ∈ sc.ifcreate ∨ f ∈ sc.cond) → w.rules f = [])
     (hinv : RInv R (t :: cyc) w) (hK : K R (t :: cyc) w t) :
     ScriptPost R cyc t w (runScript E d cx t sc w) := by
@@ -282,7 +286,7 @@ theorem runScript_spec (hR : 0 < R) {E : Engine} (hE : ESpec R E) (d : Defects) 
       dsimp only
       by_cases hrv : rv = 0
       · subst hrv
-        simp only [not_true_eq_false, if_false]
+        simp only [not_true_eq_false, if_false, hcr, reduceCtorEq, decide_false, Bool.and_false, Bool.false_eq_true]
         generalize outContent sc.tag _ = out
         have tail : ∀ b : Bool, ScriptPost R cyc t w
             (if b = true then ((1 : Status), (none : Option Content), w3) else
